@@ -121,6 +121,8 @@ class G:
         for n, s in states.items():
             if s['kind'] == 'simple' and r.random() < 0.2:
                 s['internal'] = [Row(n, r.choice(EVENTS[:5]), None, guard=self.guard(0.7), actions=['si'])]
+                if s['internal'][0]['guard'] is not None and sum(map(ord, n)) % 3 == 0:
+                    s['internal'][0]['actions'] = []        # guard-only internal row (Internal<E, none, G> / g_internal)
                 if s['internal'][0]['guard'] is None and r.random() < 0.5:
                     s['internal'].append(Row(n, r.choice(EVENTS[:5]), None, guard=self.guard(1.0), actions=['sj']))
         internal = []
